@@ -907,6 +907,9 @@ func (m *Machine) exec(fr *Frame, in ssa.Instruction, isInit bool) {
 		case NilPtr:
 			fr.env[x] = &mapIter{m: &MapObj{}}
 		case *MapObj:
+			if m.hb != nil {
+				m.hbMem(c, false, false)
+			}
 			it := &mapIter{m: c}
 			fr.env[x] = it
 		default:
@@ -928,6 +931,9 @@ func (m *Machine) exec(fr *Frame, in ssa.Instruction, isInit bool) {
 			break
 		}
 		it := m.get(fr, x.Iter).(*mapIter)
+		if m.hb != nil {
+			m.hbMem(it.m, false, false)
+		}
 		if it.i < len(it.m.keys) {
 			fr.env[x] = Tuple{True, it.m.keys[it.i], copyVal(it.m.vals[it.i])}
 			it.i++
